@@ -14,7 +14,11 @@ PROP = dict(
           "{U+41 U+7A U+E9 U+20AC U+1F600} x every count n = 1..len, and generated sequences (half ASCII, up to 60 / 300 scalars, count anywhere / "
           "len / len-1): utf32toUtf8, utf8toUtf32, utf8toUtf16, utf16toUtf8 called with n from a longer 0-terminated source and from an "
           "exactly-sized UNTERMINATED source in an exact heap block, plus every single element with n = 1, must return/write exactly the "
-          "reference encoding of the first n scalars (+ terminator); all pairs of code points below 1443 for "
+          "reference encoding of the first n scalars (+ terminator); the same case relation on all 336,610 unordered pairs of the 820 byte strings of length <= 3 over "
+          "{41 61 7A C2 C3 E0 F0 80 A0} (mostly ill-formed: trailing leads, stray continuations) and on generated related ill-formed pairs "
+          "(same pieces, ASCII case flipped, one piece replaced/dropped, different ends: lead byte cut by the end / stray continuation / "
+          "overlong NUL) - the relation is asserted for every pair, well- or ill-formed, because the unchanged tree satisfies it on ill-formed "
+          "strings too (truncated sequences read as code 0 on both sides); all pairs of code points below 1443 for "
           "a.equalsNocase(b) == (a.toLowerCase() == b.toLowerCase()). Generated (rapidcheck): well-formed texts of up to 600 (thorough 2000) "
           "scalars of mixed widths with lengths biased to 15/16/19/20/24; ill-formed strings of up to 300 bytes built from valid encodings, "
           "sequences cut short, overlong forms, surrogates, > U+10FFFF, lone continuation/lead bytes, usually ending in a lead byte without its "
@@ -24,7 +28,7 @@ PROP = dict(
           "must terminate in bounds with results no longer than the input (case maps: length() <= input length, terminated); on well-formed "
           "input values must equal the reference; on ASCII the case maps must equal C-locale toupper/tolower. Memory oracle: ASan, C-string / "
           "wide / code-point inputs and outputs in exact-size malloc blocks (outputs sized as asl's own callers size them: n+1 code units, "
-          "4n+1 bytes), String receivers allocated with new and tested as-is, ASCII-prefixed to 19 bytes (heap buffer of exactly 20 bytes) "
+          "4n+1 bytes), String receivers allocated with new and tested as-is, ASCII-prefixed to 19 bytes (heap buffer of exactly 20 bytes; in the single-scalar enumeration for all 1-/2-byte scalars, every 4th other scalar and the boundary neighbourhoods) "
           "and, when ill-formed, also ASCII-prefixed to 15 bytes (terminator = last byte of the String object). Non-trivial: non-ASCII scalars / texts with a non-ASCII scalar; ill-formed strings "
           "whose first defect is a truncated or overlong sequence; case pairs with a != b. Distinct = by construction (enumerated parts) or "
           "distinct FNV-1a hash of the case (generated parts)."),
